@@ -420,18 +420,19 @@ PROPS = {
         modules=["Whawty.Props.C13", "Whawty.Props.GenCodec"],
         level_text="Wire format, round trip, over-limit refusal, re-encode = consumed prefix, fragment "
                    "independence of the bufio.Scanner loop and PAM/Go encoder agreement are Lean theorems for all "
-                   "byte strings and all fragmentations (induction over the scanner loop); the model is compared "
-                   "with sasl.Request/Response Encode/Decode/Marshal/Unmarshal on every run.",
+                   "byte strings and all fragmentations a reader that makes progress produces (induction over the scanner "
+                   "loop; bufio's guard against 101 zero-length reads in a row is part of the model: decodeScan, "
+                   "stalled_reader_is_refused, chunked_result_is_stream_result — the guard can only turn a result "
+                   "into an error); the model is compared with sasl.Request/Response Encode/Decode/Marshal/Unmarshal on every run.",
         suites=[("hdrv", "c13"), ("hdrv+pam", "c13pam")],
         rule="Requests over the exhaustive grid {0,1,2,255,256,257}^4 of field lengths plus the 65535/65536 "
              "boundary, responses over message lengths around every limit, decoder inputs (encoder output, "
              "truncations, bit flips, insertions, raw boundary-length parts, random bytes, fuzz-corpus shapes), "
              "each decoded under several fragmentations (whole, 1-byte reads, random cuts with zero-length "
-             "reads, EOF with the last data or separate); a sixth of the encodes are preceded by an encode of another "
+             "reads, runs of 99/100/101/150 zero-length reads at the start, inside a length prefix, inside a field, "
+             "at the end, EOF with the last data or separate); a sixth of the encodes are preceded by an encode of another "
              "message into a writer that breaks after 0-5 bytes (the output may not depend on it).",
-        trusted=[T_GO + ": bufio.Scanner (modelled explicitly in Model/Sasl.lean: decodeChunks)"],
-        partial=["more than 100 consecutive zero-length reads make bufio.Scanner give up (io.ErrNoProgress); "
-                 "the model takes read sequences without such runs"],
+        trusted=[T_GO + ": bufio.Scanner (modelled explicitly in Model/Sasl.lean: decodeScan)"],
         assumptions=["streams are finite and end in EOF"],
     ),
 }
